@@ -200,7 +200,7 @@ def check(ctx):
             r2.ok("both sides use the section plugins.typegen")
         else:
             r2.bad(V(r2.id, "GenerateConfig", "section", "reader sections %s / writer sections %s" % (rsec, wsec)))
-    r2.require_floor(10, "config keys")
+    r2.require_floor(8, "config keys")
     rules.append(r2)
 
     # ---------------------------------------------------------------- D3
